@@ -38,8 +38,8 @@ import (
 	"github.com/ethereum/go-ethereum/triedb"
 	"github.com/ethereum/go-ethereum/triedb/database"
 	"github.com/ethereum/go-ethereum/triedb/pathdb"
-	tk "verif/harness/triekit"
 	tl "verif/harness/tracelib"
+	tk "verif/harness/triekit"
 )
 
 type expState struct {
